@@ -294,6 +294,36 @@ fn adler_cases(o: &mut Out, b: &Built, rng: &mut Rng) {
     }
 }
 
+/// the input pauses (UnexpectedEof, then it grows) around the CRC field of a data chunk whose CRC does not match: the frame that chunk belongs
+/// to must still fail - a pause must not let it through as decoded (the paused call reports the pause, the repeated call the mismatch)
+fn paused_cases(o: &mut Out, b: &Built, rng: &mut Rng) {
+    let chunks = parse(&b.bytes).unwrap();
+    let fo = frame_of(&chunks);
+    for k in 0..b.frames.len() {
+        let Some(i) = (0..chunks.len()).filter(|&i| (&chunks[i].ty == b"IDAT" || &chunks[i].ty == b"fdAT") && fo[i] == k).last() else { continue };
+        let bit = rng.below(32);
+        let bytes = with_bad_crc(&chunks, i, |c| { c.crc = Some(c.crc_value() ^ (1 << bit)); });
+        let crc_start: usize = 8 + chunks[..i].iter().map(|c| 12 + c.data.len()).sum::<usize>() + 8 + chunks[i].data.len();
+        for path in [0u32, 1, 2] {
+            let (whole, _) = crate::c05::resumable(&bytes, bytes.len(), 0, path, &[0]);
+            for cut in crc_start.saturating_sub(6)..(crc_start + 13).min(bytes.len()) {
+                for step in [0usize, 1] {
+                    o.mark(&format!("paused crc {} frame {} path {} cut {} step {} {}", b.name, k, path, cut, step, hex(&bytes)));
+                    let (got, _) = crate::c05::resumable(&bytes, cut, step, path, &[0]);
+                    o.direct_checks += 1;
+                    if got != whole {
+                        o.violation(viol("crc-mismatch-let-through-when-the-input-pauses", "crc-mismatch-let-through-when-the-input-pauses", vec![("file", jstr(&b.name)), ("frame", k.to_string()), ("path", path.to_string()),
+                            ("visible_bytes_at_the_pause", cut.to_string()), ("growth_step", step.to_string()), ("crc_field_at", crc_start.to_string()), ("bytes", jstr(&hex(&bytes))),
+                            ("paused_then_resumed", jstr(&got.chars().take(500).collect::<String>())), ("all_at_once", jstr(&whole.chars().take(500).collect::<String>()))]));
+                        return;
+                    }
+                }
+            }
+        }
+        o.count("paused-at-the-crc-of-a-mismatching-data-chunk");
+    }
+}
+
 pub fn run(a: &Args) {
     let mut o = Out::new(&a.out);
     let mut rng = Rng::new(a.seed);
@@ -309,6 +339,7 @@ pub fn run(a: &Args) {
         corrupt_cases(&mut o, &b, &mut rng, thorough);
         ignore_crc_cases(&mut o, &b, &mut rng);
         adler_cases(&mut o, &b, &mut rng);
+        if fi % 3 == 0 { paused_cases(&mut o, &b, &mut rng); }
     }
     o.mark("done");
     o.finish();
